@@ -879,7 +879,7 @@ def run_saturation(ctx, results, q):
                 run_sat_case(ctx, case, events)
                 ncase += 1
     nrand = 0
-    for i in range(8 if q else 80):
+    for i in range(16 if q else 80):
         case = random_case(rng, 'transmission' if i % 2 == 0 else 'emission', q)
         if case is None:
             nskip += 1
